@@ -31,3 +31,13 @@ pub open spec fn error_names_cause<'a, V: ToRoughTLV<'a>>(s: Seq<(Tag, V)>, ret:
         Err(_) => false,
     }
 }
+// the sum dominates each of its terms (what makes "one value of i32::MAX bytes already breaks the total limit" provable)
+pub proof fn lemma_sum_ge<'a, V: ToRoughTLV<'a>>(s: Seq<(Tag, V)>, i: int)
+    requires 0 <= i < s.len()
+    ensures sum_lens(s) >= s[i].1.tlv_len()
+    decreases s.len()
+{
+    if i < s.len() - 1 {
+        lemma_sum_ge(s.drop_last(), i);
+    }
+}
